@@ -803,16 +803,17 @@ def rand_history(rng, fe, n_int=None, n_ev=None, wf=True):
     live = []
     datas = []
     shut = False
-    dig_pool = [None, None, None, 0, 1, 2, 'x']
+    dig_pool = [None, None, None, None, 0, 1, 2, 'x']
+    int_names = []
     for _ in range(n_ev):
         # time
         k = rng.random()
         cand = [d for d in deadlines if d >= t]
         tie = 0
-        if cand and k < 0.35:
+        if cand and k < 0.27:
             t = rng.choice(cand)
             tie = rng.choice((0, 1, 2))
-        elif cand and k < 0.5:
+        elif cand and k < 0.4:
             t = max(t, rng.choice(cand) + rng.choice((-1, 1)))
             tie = rng.choice((0, 0, 1, 2))
         else:
@@ -834,6 +835,14 @@ def rand_history(rng, fe, n_int=None, n_ev=None, wf=True):
             life = rng.choice((50, 100, 100, 200))
             vm = ('def',) if rng.random() < 0.45 else ('imm', rng.choice(verdicts(fe)) if rng.random() < 0.4 else PASS[fe])
             dig = rng.choice(dig_pool)
+            if isinstance(dig, int):
+                known = dict(datas)
+                if dig in known:
+                    # the digest of a packet fixes its name; ask for it (or for a prefix of it)
+                    name = known[dig] if rng.random() < 0.7 else known[dig][:max(1, len(known[dig]) - 1)]
+                elif rng.random() < 0.7:
+                    datas.append((dig, name))
+            int_names.append(name)
             i = nxt_i
             nxt_i += 1
             if wf or rng.random() < 0.6:
@@ -854,7 +863,12 @@ def rand_history(rng, fe, n_int=None, n_ev=None, wf=True):
                 d, name = rng.choice(datas)
             else:
                 d = nxt_d if nxt_d < 3 or rng.random() < 0.7 else rng.randint(0, 2)
-                name = rng.choice(NAMES + [ABC + (5,), AB + (7,)])
+                if int_names and rng.random() < 0.6:
+                    name = rng.choice(int_names)
+                    if rng.random() < 0.35:
+                        name = name + (rng.choice((1, 2, 5)),)
+                else:
+                    name = rng.choice(NAMES + [ABC + (5,), AB + (7,)])
                 known = dict(datas)
                 if d in known:
                     name = known[d]
@@ -863,7 +877,8 @@ def rand_history(rng, fe, n_int=None, n_ev=None, wf=True):
                 nxt_d = max(nxt_d, d + 1)
             h.append(('data', d, name, t, tie))
         elif a == 'nack':
-            h.append(('nack', rng.choice(NAMES), rng.choice(dig_pool), rng.choice((50, 100, 150)), t, tie))
+            h.append(('nack', rng.choice(int_names) if int_names and rng.random() < 0.6 else rng.choice(NAMES),
+                      rng.choice(dig_pool), rng.choice((50, 100, 150)), t, tie))
         elif a == 'vdone':
             h.append(('vdone', rng.choice(deferred), rng.choice(verdicts(fe)) if rng.random() < 0.5 else PASS[fe], t, tie))
         elif a == 'cancel':
